@@ -405,4 +405,41 @@ def ktimer_cases(seed, methods=METHODS):
                     L.append(f"at {w} : wr f0 1")
                 L += ["do reg f0 100 ; trel t0 60000000 ; trel t9 2000000000", "main"]
                 cases.append((f"ktimer-{METHOD_NAME[m]}-k{k}-c{ci}", L))
+        # the armed kernel timer expires while a handler is still running (the clock moves inside the handler), and the next poll finds,
+        # besides the expired timer descriptor: a cross-thread event posted afterwards (batch order: timer, kick) / a task that keeps
+        # itself pending (zero-deadline poll) / a descriptor; a later timer t2 must still fire on time afterwards
+        for k in (5, 6, 8):
+            for vi, (hact, stim, extra) in enumerate([
+                    ("clk 70000000", "xpost e0", []),
+                    ("clk 70000000 ; kreg k1", "nop", ["on k1 1 : ?kreg k1", "on k1 2 : ?kreg k1"]),
+                    ("clk 70000000 ; kreg k1", "xpost e0", ["on k1 1 : ?kreg k1"]),
+                    ("clk 70000000", "wr f0 1 ; xpost e0", []),
+                    ("clk 59999000", "xpost e0", [])]):
+                L = ([f"exclude {m}"] if m else []) + ["cfg waitlimit=40 cblimit=300", "obj fd f0 sock", "obj timer t0", "obj timer t2", "obj timer t9",
+                     "obj event e0", "obj task k1", "on f0.in * : rd f0", f"on f0.in {k} : {hact}", "on t9 1 : ?unreg f0 ; ?evunreg e0 ; ?tunreg t2"] + extra
+                for w in range(k):
+                    L.append(f"at {w} : wr f0 1")
+                L.append(f"at {k} : {stim}")
+                L += ["do reg f0 100 ; evreg e0 ; trel t0 60000000 ; trel t2 90000000 ; trel t9 2000000000", "main"]
+                cases.append((f"ktimer-{METHOD_NAME[m]}-k{k}-late{vi}", L))
+    return cases
+
+
+# ---------------------------------------------------------------- enumerated family: iv_quit outside iv_main
+def quit_cases():
+    """(C07) Enumerated: iv_quit() called while the thread is NOT inside iv_main (before the first run, between two runs, twice) must
+    have no effect on the next iv_main, which returns only on an iv_quit made since it was entered or when nothing is registered; with a
+    not-yet-due timer and an idle descriptor registered; all four methods."""
+    cases = []
+    for m in METHODS:
+        pre = ([f"exclude {m}"] if m else []) + ["cfg waitlimit=12 cblimit=60", "obj timer t0", "obj timer t1", "obj fd f0 sock", "on f0.in * : rd f0"]
+        variants = {
+            "before-first": ["do trel t0 5000000 ; reg f0 100 ; quit", "on t0 1 : ?unreg f0", "main"],
+            "twice-before-first": ["do quit ; trel t0 5000000 ; quit", "main"],
+            "between-runs": ["on t0 1 : quit", "do trel t0 1000 ; trel t1 9000000 ; reg f0 100", "main", "do quit", "on t1 1 : ?unreg f0", "main"],
+            "between-runs-then-inside": ["on t0 1 : quit", "on t1 1 : quit", "do trel t0 1000 ; trel t1 9000000 ; reg f0 100", "main", "do quit ; wr f0 1", "main",
+                                         "do unreg f0", "main"],
+        }
+        for name, body in variants.items():
+            cases.append((f"quit-{METHOD_NAME[m]}-{name}", pre + body))
     return cases
